@@ -181,6 +181,13 @@ func Grid(opt GridOptions) []File {
 			{Name: "am", Type: Array(Map("string", Array(Named("One8"))))},
 			{Name: "tail", Type: Prim("uint16")},
 		}},
+		// the largest legal field index, on fields that are not records
+		&Record{Kind: Message, Name: "Msg255", Fields: []Field{{Name: "a", Index: 1, Type: Prim("uint8")}, {Name: "z", Index: 255, Type: Prim("string")}}},
+		&Record{Kind: Message, Name: "Msg254", Fields: []Field{{Name: "y", Index: 254, Type: Array(Prim("uint16"))}, {Name: "z", Index: 255, Type: Prim("int64")}}},
+		// a guid read before an 8-byte integer (scratch buffers shared between reads), byte arrays followed by more fields
+		&Record{Kind: Struct, Name: "GuidThenInt", Fields: []Field{{Name: "id", Type: Prim("guid")}, {Name: "count", Type: Prim("int64")}, {Name: "id2", Type: Prim("guid")}, {Name: "u", Type: Prim("uint64")}, {Name: "d", Type: Prim("date")}, {Name: "f", Type: Prim("float64")}}},
+		&Record{Kind: Struct, Name: "BytesThenMore", Fields: []Field{{Name: "raw", Type: Array(Prim("byte"))}, {Name: "n", Type: Prim("uint32")}, {Name: "s", Type: Prim("string")}, {Name: "raw2", Type: Array(Prim("uint8"))}, {Name: "tail", Type: Prim("uint16")}}},
+		&Record{Kind: Message, Name: "BytesMsg", Fields: []Field{{Name: "raw", Index: 1, Type: Array(Prim("byte"))}, {Name: "n", Index: 2, Type: Prim("uint32")}, {Name: "g", Index: 3, Type: Prim("guid")}, {Name: "i", Index: 4, Type: Prim("int64")}}},
 		// a struct that is used before it is defined (tables filled in definition order see it too late)
 		&Record{Kind: Struct, Name: "FwdImage", Fields: []Field{{Name: "px", Type: Array(Named("FwdPixel"))}, {Name: "pm", Type: Map("uint8", Named("FwdPixel"))}}},
 		&Record{Kind: Struct, Name: "FwdPixels", Fields: []Field{{Name: "px", Type: Array(Named("FwdPixel"))}}},
